@@ -855,7 +855,7 @@ def compare(case, b, k, rules):
                     else:
                         r = 'tick-trace-differs'
                 else:
-                    r = 'returned-other-value|first-return-under=%s' % ('>'.join(ret_model(case, case['args'][int(e[0][1:])])[2]) or 'top')
+                    r = 'returned-other-value|first-return-under=%s' % ('+'.join(sorted(set(ret_model(case, case['args'][int(e[0][1:])])[2]))) or 'top')
             return ('violation', '%s|%s' % (pre, r), {'declaration': e[0], 'expected': e[1], 'observed': gv})
     return None
 
@@ -913,6 +913,24 @@ def record(ctx, case, b):
     else:
         for e in b['exp'][1]:
             ctx.seen('content-observation', e[2])
+            if e[2].startswith('content-exists'):
+                ctx.seen('content-exists-value', e[1][1])
+
+        def shapes(items, in_block):
+            for it in items:
+                if it['k'] == 'include':
+                    blk = it['block']
+                    ctx.seen('include-shape', 'without-block' if blk is None else ('with-block-using-$' + blk['using'] if blk['using'] else 'with-block'))
+                    if blk is not None:
+                        shapes(blk['body'], True)
+                elif it['k'] == 'content':
+                    ctx.seen('content-statement', ('inside-a-block(pass-through)' if in_block else 'in-mixin-body') +
+                             ('/with-argument' if it['arg'] is not None else ''))
+                elif it['k'] == 'each':
+                    shapes(it['body'], in_block)
+        shapes(case['main'], False)
+        for m in case['mixins']:
+            shapes(m['body'], False)
         ctx.stat('content_declarations', len(b['exp'][1]))
 
 
